@@ -63,7 +63,14 @@ def run(tier):
             from_ctx = 2 in locs or any(pl["local"] == 2 for pl in places)   # `context` parameter (self=1, opts=2?) resolved below
             ok = bool(sharing) and not fresh
             if fname == "include_paths":
-                continue    # decided below (sharing or write-back)
+                # forward direction: the included file searches the directories the includer knows (a copy of its set, not a fresh one)
+                okf = any(n == "<std::cell::RefCell<T> as std::clone::Clone>::clone" or SHARING.match(n) for n in names) and not any(
+                    re.search(r"BTreeSet::<T>::new$|RefCell::<T>::new$", n) for n in names)
+                rep.ob("C11.search|includer-directories", okf,
+                       "the included file starts with the directories its includer knows" if okf else
+                       "the included file does not inherit the includer's directory set (%s): a file found through an .includepath of the includer cannot use the same directories itself" % names[:3],
+                       loc=loc_of(st["span"]))
+                continue    # the way back is decided below (sharing or write-back)
             rep.ob("C11.shared|Directive::parse|%s" % fname, ok,
                    "the included file's context shares the includer's %s (%s)" % (fname, sharing[0].split(" as ")[0].lstrip("<") if sharing else "") if ok else
                    "the included file gets its own %s (%s): definitions made inside the included file are not visible afterwards" % (fname, fresh or names[:2]),
@@ -228,6 +235,32 @@ def run(tier):
                         if st_["k"] == "assign" and st_["place"]["local"] == 0 and not st_["place"]["proj"] and st_["rv"]["k"] == "agg" and st_["rv"]["kind"].get("vname") == "Ok":
                             if okb_ is None or not G.dominates(idomp, okb_, bi_):
                                 early.append(loc_of(st_["span"]))
+            # what is parsed is the whole text that was read from that file
+            reads = [(x, xt) for x, xt, xn, xtg in P.call_sites(pk) if MU.callee_names(xt)[1].endswith("as std::io::Read>::read_to_string") or MU.callee_names(xt)[1] == "std::io::Read::read_to_string"]
+            whole = False
+            why_w = "no read_to_string found"
+            if reads and parse_calls:
+                chw = MU.Chaser(pb)
+                buf = chw.root(reads[0][1]["args"][1], through_calls=False)[0]
+                fileh = chw.root(reads[0][1]["args"][0], through_calls=False)[0]
+                pt = pb["blocks"][parse_calls[0]]["term"]
+                chw2 = MU.Chaser(pb, transparent={"std::string::String::as_str", "<std::string::String as std::ops::Deref>::deref",
+                                                  "<std::string::String as std::convert::AsRef<str>>::as_ref", "<std::string::String as std::borrow::Borrow<str>>::borrow"})
+                rt = chw2.root(pt["args"][0])
+                text_ok = rt[0] == buf and not MU.proj_fields(rt[1])
+                d_ = chw2.single_def(rt[0]) if rt[0] is not None and rt[0] != buf else None
+                between = [MU.callee_names(d_[2])[1]] if d_ and d_[0] == "call" else []
+                read_checked = MU.result_edges(pb, reads[0][0]) is not None
+                opened = [x for x, xt, xn, xtg in P.call_sites(pk) if MU.callee_names(xt)[1] == "std::fs::File::open"]
+                same_file = False
+                if opened:
+                    lf, cf, callsf, pf = MU.backward_slice(pb, reads[0][1]["args"][:1])
+                    same_file = any(MU.callee_names(c)[1] == "std::fs::File::open" for c in callsf)
+                whole = text_ok and read_checked and same_file
+                why_w = ("the text handed to the parser goes through %s" % [n for n in between if not re.search(r"as_str$|String::new$|deref$", n)][:2] if not text_ok else
+                         "a failed read is not turned into an error" if not read_checked else "the text is not read from the file that was opened")
+            rep.ob("C11.paste|whole-text", whole, "the parser gets the whole text read from the opened file (read errors fail the build)" if whole else
+                   "what is parsed is not simply the text of the included file: %s" % why_w)
             rep.ob("C11.paste|no-early-ok", bool(parse_calls) and not early,
                    "parse_file_internal returns Ok only after the file's text went through the parser" if parse_calls and not early else
                    "parse_file_internal can return Ok without having parsed the file (%s): an .include may contribute nothing — e.g. a file that is included a second time" % (early[:2] or "no parse call"))
